@@ -186,7 +186,7 @@ def run_scenario(sc, work, fixed_cache):
             cmd += ["-e", "inject=%s:signal=%s:when=%d" % (inj["call"], inj["signal"], inj["when"])]
         else:
             cmd += ["-e", "inject=%s:error=%s:when=%d" % (inj["call"], inj["error"], inj["when"])]
-    cmd += [PY, os.path.join(REPO, "bin", "vsg"), "-f", target, "-p", "1"] + sc["args"]
+    cmd += [PY, os.path.join(REPO, "bin", "vsg"), "-f", target, "-p", str(sc.get("jobs", 1))] + sc["args"]
     env = dict(os.environ)
     env["PYTHONDONTWRITEBYTECODE"] = "1"
     env.pop("VSG_VERIF_TRACE", None)
